@@ -91,6 +91,9 @@ def interpret_arm(seq, result_name, axes_names, f0_name=None):
                 offsets[ax] = po[1]
                 continue
             if isinstance(t, ast.Name) and isinstance(st.value, ast.Call) and dotted(st.value.func) == 'func':
+                if st.value.args and ast.unparse(st.value.args[0]) == 'p0':
+                    samples[t.id] = {}            # evaluated at the unperturbed point
+                    continue
                 if not (st.value.args and ast.unparse(st.value.args[0]) == 'pwork'):
                     raise AnalysisError('sample %s is not evaluated at the work vector' % ast.unparse(st))
                 samples[t.id] = dict(offsets)
@@ -101,7 +104,12 @@ def interpret_arm(seq, result_name, axes_names, f0_name=None):
             if isinstance(t, ast.Name) and t.id == 'pwork':
                 offsets = {}
                 continue
+    LAST_OFFSETS.clear()
+    LAST_OFFSETS.update(offsets)
     return samples, result
+
+
+LAST_OFFSETS = {}
 
 
 def moment(samples, result, axes, powers, f0_name):
@@ -171,13 +179,34 @@ def check_stencils(rep, prog, m):
     if len(loops) != 1:
         raise AnalysisError('anchor vanished: the per-parameter loop of get_grad')
     n_arms = 0
+    # values of func at the unperturbed point that are computed once and shared by the arms (f0 = func(p0, *args), possibly
+    # under `if f0 is None`): available as zero-offset samples in every arm
+    shared = {}
+    for n in own_nodes(gg):
+        if isinstance(n, ast.Assign) and len(n.targets) == 1 and isinstance(n.targets[0], ast.Name) and isinstance(n.value, ast.Call) and dotted(n.value.func) == 'func' \
+                and n.value.args and ast.unparse(n.value.args[0]) == 'p0':
+            shared[n.targets[0].id] = {}
+    fresh_in_loop = any(isinstance(st, ast.Assign) and ast.unparse(st.targets[0]) == 'pwork' and isinstance(st.value, ast.Call) and ast.unparse(st.value.args[0]) == 'p0'
+                        for st in loops[0].body)
+    carried = []
+    seen_arms = set()
     for seq, conds in arms_of(loops[0].body):
+        if any(c.replace(' ', '') in ('f0isNone', 'not(f0isNone)') or 'is None' in c for c in conds) and not any(isinstance(st, ast.Assign) and 'grad' in ast.unparse(st.targets[0]) for st in seq):
+            continue
         samples, result = interpret_arm(seq, 'grad', ('ii',))
+        for k_, v_ in shared.items():
+            samples.setdefault(k_, v_)
+        if not fresh_in_loop:
+            left = {a: o.canon() for a, o in LAST_OFFSETS.items() if not o.is_zero()}
+            if left:
+                carried.append('arm [%s] leaves pwork displaced by %s' % (' and '.join(conds)[:60], left))
         if result is None:
             raise AnalysisError('an arm of get_grad does not assign grad[ii]')
-        n_arms += 1
         onesided = any(c.startswith('not(') and 'one_sided' in c for c in conds)
-        armname = 'get_grad[%s]' % ' and '.join(conds)[:80]
+        armname = 'get_grad[%s]' % ' and '.join(c for c in conds if 'is None' not in c)[:80]
+        if armname not in seen_arms:
+            seen_arms.add(armname)
+            n_arms += 1
         degs = (0, 1) if onesided else (0, 1, 2)
         for p in degs:
             val = moment(samples, result, ('ii',), (p,), None)
@@ -186,6 +215,9 @@ def check_stencils(rep, prog, m):
             rep.ob('R-ALG', armname, ok, 'stencil applied to x^%d gives %s, exact derivative is %d; samples at offsets %s'
                    % (p, val.canon(), expect, {k: {a: o.canon() for a, o in v.items()} for k, v in samples.items()}), rel,
                    seq[0].lineno, what='moment condition for monomial x^%d' % p)
+    rep.ob('R-RESTORE', 'get_grad work vector', fresh_in_loop or not carried, 'pwork is a fresh copy of p0 for every parameter' if fresh_in_loop else
+           ('; '.join(carried) if carried else 'pwork is shared between parameters and every arm restores the entry it moved'), rel, loops[0].lineno,
+           what='each component is differentiated around p0: no displacement is carried over from the previous parameter')
     rep.ob('R-EXH', 'get_grad arms', n_arms == 3, '%d stencil arms' % n_arms, rel, gg.lineno, what='central, one-sided and optional 3-point arms')
     # arm selection: central only when the parameter is non-zero and not flagged one-sided (else the relative step is 0)
     for fn, var in ((he, 'pwork'), (gg, 'p0')):
